@@ -591,6 +591,28 @@ def corpus_oplists(api, arch_of):
     return out
 
 
+def accesses_case(api, op, arch):
+    """(flat model case, real access set as ({area: ranges}, {area: ranges})) of get_op_memory_accesses / get_dma_memory_accesses"""
+    from ethosu.vela import register_command_stream_util as u
+    if isinstance(op, api.NpuDmaOperation):
+        real = u.get_dma_memory_accesses(op)
+        case = [0, 1, op.src.region, op.src.address, op.src.length, 0, 1, op.dest.region, op.dest.address, op.dest.length]
+    else:
+        real = u.get_op_memory_accesses(op, arch)
+        rf = [op.ifm] + ([op.ifm2] if u.has_ifm2(op) else [])
+        rr = [tuple(r) for r in list(op.weights) + list(op.biases)]
+        lut = op.activation is not None and op.activation.op_type == api.NpuActivationOp.TABLE_LOOKUP
+        if lut:
+            rr.append((u.BASE_PTR_INDEX_MEM2MEM, arch.available_shram_banks(True) * arch.shram_bank_size, 2048))
+        wr = [(u.BASE_PTR_INDEX_MEM2MEM, 0, arch.available_shram_banks(lut) * arch.shram_bank_size)]
+        case = [len(rf)] + [v for f in rf for v in flat_fm(f)] + [len(rr)] + [v for r in rr for v in r] + \
+            [1] + flat_fm(op.ofm) + [len(wr)] + [v for r in wr for v in r]
+
+    def flat(m):
+        return {area: [v for t in r.ranges for v in t] for area, r in m.regions.items()}
+    return case, (flat(real.accesses[0]), flat(real.accesses[1]))
+
+
 def fm_bytes(f):
     """exact byte set of an API feature map (independent address arithmetic: tile, strides, bricks)"""
     e = f.data_type.size_in_bytes()
@@ -820,7 +842,6 @@ def run(tier):
     accs = list(api.NpuAccelerator)
     archs = {a: create_default_arch(Accelerator.from_npu_accelerator(a)) for a in accs}
     bcases, bimpl, bmeta = [], [], []
-    from ethosu.vela.test import test_register_command_stream_util as tr  # the three fixed pairs of the suite are the corpus
     for i in range(1200 if quick else 30000):
         a = accs[i % len(accs)]
         prev, cur, tag = gen_blockdep_pair(rng, api)
@@ -868,7 +889,7 @@ def run(tier):
     # ---------------------------------------------------------------- (b) random op lists through the public generator
     rows = artefacts.accel_rows()
     hcases, hmeta = [], []
-    n_lists = 200 if quick else 5000
+    n_lists = 160 if quick else 5000
     t0 = time.time()
     todo = corpus_oplists(api, archs)
     for i in range(n_lists):
@@ -886,8 +907,27 @@ def run(tier):
         name = Accelerator.from_npu_accelerator(a).value
         hcases.append(hz_args(rows[name]) + list(words))
         hmeta.append((a, ops, desc, words))
-        if quick and time.time() - t0 > 25:
+        if quick and time.time() - t0 > 15:
             break
+    if okx and hmeta:
+        acases, areal = [], []
+        for a, ops, desc, words in hmeta:
+            for op_ in ops:
+                try:
+                    cse, real = accesses_case(api, op_, archs[a])
+                except AssertionError:
+                    continue
+                acases.append(cse)
+                areal.append(real)
+        for cse, real, m in zip(acases, areal, models.run_parallel("op_accesses", acases, exe_name=EXE)):
+            stats["op_accesses_cases"] += 1
+            if m[0] != 1:
+                diffs.append(("get_op_memory_accesses", {"flat_case": cse}, real, m))
+                continue
+            rd, pos = parse_mrs(m, 1)
+            wrs, pos = parse_mrs(m, pos)
+            if (rd, wrs) != real:
+                diffs.append(("get_op_memory_accesses / get_address_ranges", {"flat_case": cse}, real, (rd, wrs)))
     if okx and hcases:
         houts = models.run_parallel("check_hazards", hcases, exe_name=EXE)
         souts = models.run_parallel("stream_waits", [c[5:] for c in hcases], exe_name=EXE)
